@@ -583,3 +583,49 @@ Proof.
   destruct defaults_ok as (_ & _ & _ & H3). unfold millisecond in *. lia.
 Qed.
 
+(* ---- one value, operations in any order: the per-attempt query is a function of the
+   attempt number (and the oracle) alone, whatever was asked of the value before; the
+   waits count from the last reset ---- *)
+Fixpoint ops_spec (b : backoff) (a : Z) (ops : list op) : list outcome :=
+  match ops with
+  | [] => []
+  | OQuery n r :: t => snd (dur_for_attempt b n r) :: ops_spec b a t
+  | OWait r :: t => snd (dur_for_attempt b a r) :: ops_spec b (a + 1) t
+  | OReset :: t => ops_spec b 0 t
+  end.
+
+Lemma params_default_default b : params (set_default (set_default b)) = params (set_default b).
+Proof. rewrite set_default_idem. reflexivity. Qed.
+
+Lemma run_ops_spec_gen : forall ops b0 b,
+  params (set_default b) = params (set_default b0) ->
+  snd (run_ops b ops) = ops_spec b0 (attempt b) ops /\
+  params (set_default (fst (run_ops b ops))) = params (set_default b0).
+Proof.
+  induction ops as [|o ops IH]; intros b0 b Hpar; [split; [reflexivity|exact Hpar]|].
+  destruct o as [n r|r|]; cbn [run_ops ops_spec].
+  - change (dur_for_attempt b n r) with (set_default b, delay (set_default b) n r). cbv beta iota.
+    destruct (IH b0 (set_default b)) as (H1 & H2).
+    { rewrite params_default_default. exact Hpar. }
+    destruct (run_ops (set_default b) ops) as [b2 os]. cbn [fst snd] in *.
+    split; [|exact H2]. f_equal; [apply (delay_params _ _ n r Hpar)|exact H1].
+  - rewrite (duration_spec b r). cbv beta iota.
+    destruct (IH b0 (bump (set_default b))) as (H1 & H2).
+    { rewrite params_bump_default. exact Hpar. }
+    destruct (run_ops (bump (set_default b)) ops) as [b2 os]. cbn [fst snd] in *.
+    split; [|exact H2]. f_equal; [apply dfa_params; exact Hpar|exact H1].
+  - apply IH. rewrite set_default_reset. unfold reset, params in *.
+    cbn [no_jitter base factor cap]. exact Hpar.
+Qed.
+
+Lemma run_ops_spec b ops : snd (run_ops b ops) = ops_spec b (attempt b) ops.
+Proof. exact (proj1 (run_ops_spec_gen ops b b eq_refl)). Qed.
+
+Lemma query_history_independent b ops n r :
+  snd (dur_for_attempt (fst (run_ops b ops)) n r) = snd (dur_for_attempt b n r).
+Proof. apply dfa_params. exact (proj2 (run_ops_spec_gen ops b b eq_refl)). Qed.
+
+Lemma query_after_history b ops n r :
+  no_jitter b = true -> bounds (set_default b) -> 0 <= n ->
+  snd (dur_for_attempt (fst (run_ops b ops)) n r) = Dur (expo (set_default b) n * millisecond).
+Proof. intros Hj Hb Hn. rewrite query_history_independent. exact (dfa_nojitter b n r Hj Hb Hn). Qed.
